@@ -27,9 +27,12 @@ ROUTES = core.ROUTES + ["sort_order", "subsample_full", "filter_half", "accessor
 # one that is checked): nothing a first write leaves behind may leak into the second file
 REWRITE_OPS = ["transform_obs", "transform_samp", "norm_obs", "norm_samp", "pa", "rankdata_obs", "rankdata_samp",
                "filter_obs", "filter_samp", "update_ids_obs", "update_ids_samp", "add_metadata_obs",
-               "add_metadata_samp", "nothing"]
+               "add_metadata_samp", "del_metadata_obs", "del_metadata_samp", "mutate_md_obs", "mutate_md_samp", "nothing"]
+# tables derived from a live source; one is written and changed in place, the OTHER one is then written and checked
+ALIAS_ROUTES = ["alias:%s:%s" % (d, w) for d in ("copy", "sort_order", "transpose", "filter", "ctor_shared")
+                for w in ("check_source", "check_derived")]
 EXTRA_ROUTES = ["rewrite:" + op for op in REWRITE_OPS] + ["reloaded", "reloaded", "planted_zero:data",
-                                                          "planted_zero:setitem", "planted_zero:data"]
+                                                          "planted_zero:setitem", "planted_zero:data"] + ALIAS_ROUTES
 OWN_HEADERS = [None, None, {"generated_by": "previous writer", "create_date": [2011, 11, 11, 11, 11, 11, 11]},
                {"generated_by": "öwn", "create_date": None}, {"generated_by": "", "create_date": [2000, 1, 1, 0, 0, 0, 0]}]
 
@@ -254,6 +257,10 @@ def gen_ids(rng, n, prefix):
     if style == "natural":
         return ["%s%d" % (prefix, i + 1) for i in range(n)]
     ids = core.gen_ids(rng, n, prefix, "mixed")
+    if style == "mixed" and ids and rng.random() < 0.5:
+        # fixed-width numpy ID arrays: text ending in a blank / newline, starting with a blank
+        k = rng.randrange(len(ids))
+        ids[k] = rng.choice([ids[k] + " ", ids[k] + "\n", " " + ids[k], ids[k] + "\u00e9\u65e5"])
     if style == "long":
         ids = [i + ("λ" if k % 2 else "_") * rng.choice([30, 60, 200]) if k < 2 else i for k, i in enumerate(ids)]
     return ids
@@ -318,6 +325,10 @@ def gen_case(rng, quick=True, empty_axes=True, flat_tax=False, allow_group=True)
         classes = rng.choice([("count",), ("count", "dyadic"), ("neg", "dyadic"), ("neg", "count")])
         density = rng.choice([0.3, 0.5, 0.8, 1.0])
         n, m = max(n, 2), max(m, 2)
+    elif route.startswith("alias:"):
+        classes = rng.choice([("count",), ("count", "dyadic"), ("neg", "dyadic")])
+        density = rng.choice([0.3, 0.5, 0.8, 1.0])
+        n, m = max(n, 2), max(m, 2)
     elif route.startswith("planted_zero"):
         classes = rng.choice([("neg", "dyadic"), ("neg", "count"), ("neg",)])   # signed values
         density = rng.choice([0.5, 0.8, 1.0])
@@ -341,7 +352,16 @@ def gen_case(rng, quick=True, empty_axes=True, flat_tax=False, allow_group=True)
             "own": rng.choice(OWN_HEADERS),
             "writer": rng.choice(["to_hdf5", "to_hdf5", "to_hdf5", "save_table", "convert"]),
             # the caller's h5py.File may have been created with a user block (HDF5 signature not at offset 0)
-            "userblock": rng.choice([0, 0, 0, 512, 1024])}
+            "userblock": rng.choice([0, 0, 0, 512, 1024]),
+            # layout the table is left in right before the (observed) write: read-only pokes, then maybe a conversion
+            "poke": rng.randint(0, 10 ** 6), "layout": rng.choice([None, None, "csc", "csr", "coo", "csc_unsorted"]),
+            # how the writer is called: keywords / positional, pathlib path, explicit defaults, benign format_fs
+            "call": rng.choice(["plain", "plain", "keywords", "pathlib", "format_fs_empty", "format_fs_unused",
+                                "format_fs_default_f"]),
+            # what lies at the path before the write (the same path is re-used for every case anyway)
+            "stale": rng.choice([None, None, None, "json", "garbage", "hdf5"]),
+            "tz": rng.random() < 0.2,                       # timezone-aware creation date
+            "profile": rng.choice([None, None, "raise", "warn", "call"])}   # biom.err profile around write and loads
     if allow_group and rng.random() < 0.12:
         # the target is an h5py.Group that is not the root: two tables in one file, /run1 and /run2
         sib = gen_case(rng, quick, empty_axes=False, flat_tax=flat_tax, allow_group=False)
@@ -356,11 +376,13 @@ class Unobservable(Exception):
     """the real code raised where the property says it must not (writing a table of the domain, reading the
     written file back raw): an observation, reported as a violation by the caller"""
 
-    def __init__(self, stage, exc, src=None):
+    def __init__(self, stage, exc, src=None, pre=None):
         Exception.__init__(self, "%s: %s: %s" % (stage, type(exc).__name__, str(exc)[:300]))
         self.stage = stage
         self.exc_name = type(exc).__name__
+        self.exc_class = core.err_name(exc)
         self.src = src
+        self.pre = pre
 
 
 def _scratch_write(t, tmp, gen_by="first writer", date=None):
@@ -400,7 +422,25 @@ def _rewrite(t, op, spec, rng, tmp):
             keep = [x for k, x in enumerate(ids) if (k + rng.randint(0, 1)) % 2 == 0] or ids[:1]
             t.filter(keep, axis=axis, inplace=True)
         elif op.startswith("update_ids"):
-            t.update_ids({x: x + "'" for x in ids}, axis=axis, inplace=True)
+            # new IDs longer than every existing one (fixed-width ID arrays), with multi-byte characters
+            longest = max(len(x) for x in ids)
+            t.update_ids({x: x + "\u00e9" * (1 + (longest if k == 0 else 0)) for k, x in enumerate(ids)}, axis=axis,
+                         inplace=True)
+        elif op.startswith("del_metadata"):
+            md = t.metadata(axis=axis)
+            keys = sorted(md[0]) if md else []
+            if len(keys) >= 2:
+                t.del_metadata(keys=[keys[rng.randrange(len(keys))]], axis=axis)
+            else:
+                t.transform(lambda v, i, md_: v * 2.0, axis=axis, inplace=True)
+        elif op.startswith("mutate_md"):
+            md = t.metadata(axis=axis)
+            keys = [k for k in sorted(md[0]) if isinstance(md[0][k], str)] if md else []
+            if keys:
+                for e in md:                     # the dict objects the table holds, changed directly
+                    e[keys[0]] = e[keys[0]] + " (edited)"
+            else:
+                t.transform(lambda v, i, md_: v * 2.0, axis=axis, inplace=True)
         elif op.startswith("add_metadata"):
             t.add_metadata({x: {"added": "v%d" % k} for k, x in enumerate(ids)}, axis=axis)
         elif op == "nothing":
@@ -474,6 +514,31 @@ def build_table(case, tmp=None):
     if route.startswith("rewrite:"):
         t = finish(core.build(spec, rng.choice(["csr", "csc", "dense", "coo"])))
         return _rewrite(t, route.split(":", 1)[1], spec, rng, tmp)
+    if route.startswith("alias:"):
+        _, how, which = route.split(":")
+        src_t = finish(core.build(spec, rng.choice(["csr", "csc", "dense"])))
+        if how == "copy":
+            der = src_t.copy()
+        elif how == "sort_order":
+            order = list(src_t.ids()); rng.shuffle(order)
+            der = src_t.sort_order(order)
+        elif how == "transpose":
+            der = src_t.transpose()
+        elif how == "filter":
+            ids_ = list(src_t.ids(axis="observation"))
+            der = src_t.filter(ids_[: max(1, len(ids_) - 1)], axis="observation", inplace=False)
+        else:   # a second table built on the very matrix / metadata objects of the first
+            der = Table(src_t.matrix_data, src_t.ids(axis="observation"), src_t.ids(), src_t.metadata(axis="observation"),
+                        src_t.metadata(), type=src_t.type, table_id=src_t.table_id)
+        first, second = (der, src_t) if which == "check_source" else (src_t, der)
+        _scratch_write(first, tmp)
+        with np.errstate(all="ignore"):
+            first.transform(lambda v, i, md_: v * 0.5 + 0.0, axis=rng.choice(["sample", "observation"]), inplace=True)
+            if first.metadata() is not None:
+                first.add_metadata({x: {"added": "z"} for x in first.ids()}, axis="sample")
+        _scratch_write(first, tmp)
+        case["_keep_alive"] = first                 # stays alive while `second` is written and read back
+        return second
     if route.startswith("planted_zero"):
         t = finish(core.build(spec, rng.choice(["csr", "csc", "dense"])))
         t, planted = _plant_zero(t, route.split(":", 1)[1], rng)
@@ -537,7 +602,82 @@ def build_table(case, tmp=None):
 
 def case_date(case):
     d = case.get("date")
-    return None if d is None else datetime.datetime(*d)
+    if d is None:
+        return None
+    if case.get("tz"):
+        return datetime.datetime(*d, tzinfo=datetime.timezone(datetime.timedelta(hours=2, minutes=30)))
+    return datetime.datetime(*d)
+
+
+def public(case):
+    """the case without harness-internal entries (objects kept alive, flags)"""
+    out = {k: v for k, v in case.items() if not k.startswith("_")}
+    if out.get("group"):
+        out["group"] = dict(out["group"], sibling=public(out["group"]["sibling"]))
+    return out
+
+
+class profile_of:
+    """run the code under test under a non-default biom.err profile (only kinds that cannot fire on the table)"""
+
+    def __init__(self, case, src=None):
+        self.cm = None
+        prof = case.get("profile")
+        if prof:
+            import biom.err
+            empty_possible = src is None or not src["obs"] or not src["samp"]
+            if prof == "raise" and empty_possible:
+                prof = "warn"
+            self.cm = biom.err.errstate(empty=prof)
+        import warnings
+        self.w = warnings.catch_warnings()
+
+    def __enter__(self):
+        import warnings
+        self.w.__enter__()
+        warnings.simplefilter("ignore")
+        if self.cm is not None:
+            self.cm.__enter__()
+
+    def __exit__(self, *a):
+        if self.cm is not None:
+            self.cm.__exit__(*a)
+        self.w.__exit__(*a)
+        return False
+
+
+def plant_stale(case, path):
+    st = case.get("stale")
+    if st == "json":
+        open(path, "w").write('{"id": "stale", "format": "Biological Observation Matrix 1.0.0", "rows": []}')
+    elif st == "garbage":
+        open(path, "wb").write(b"\x00\x01not a table" * 50)
+    elif st == "hdf5":
+        import h5py
+        with h5py.File(path, "w") as f:
+            f.attrs["id"] = "stale file"
+            f.create_group("observation/metadata").create_dataset("old", data=[1, 2, 3])
+
+
+def leave_layout(t, case):
+    """read-only pokes, then (a share of the cases) an explicit conversion of the stored matrix"""
+    import random
+    done = core.poke_layout(t, random.Random(case.get("poke", 0)))
+    lay = case.get("layout")
+    if t.shape[0] == 0 or t.shape[1] == 0:
+        return done
+    if lay in ("csc", "csr", "coo"):
+        t._data = t._data.asformat(lay)
+    elif lay == "csc_unsorted":
+        m = t._data.tocsc()
+        for j in range(m.shape[1]):
+            a, b = m.indptr[j], m.indptr[j + 1]
+            m.indices[a:b] = m.indices[a:b][::-1].copy()
+            m.data[a:b] = m.data[a:b][::-1].copy()
+        m.has_sorted_indices = False
+        t._data = m
+    return done + ([lay] if lay else [])
+
 
 
 def group_name(case):
@@ -566,20 +706,49 @@ def write_file(case, t, path, tmp=None):
                 else:
                     tab.to_hdf5(g, cs["generated_by"], compress=cs["compress"], creation_date=case_date(cs))
         return case["generated_by"], date
+    call = case.get("call", "plain")
     if w == "to_hdf5":
+        import biom.table as bt
         ub = case.get("userblock") or 0
         with (h5py.File(path, "w", userblock_size=ub) if ub else h5py.File(path, "w")) as f:
-            t.to_hdf5(f, case["generated_by"], compress=case["compress"], creation_date=date)
+            if call == "keywords":
+                t.to_hdf5(h5grp=f, generated_by=case["generated_by"], compress=case["compress"], format_fs=None,
+                          creation_date=date)
+            elif call == "format_fs_empty":
+                t.to_hdf5(f, case["generated_by"], case["compress"], {}, date)          # all positional
+            elif call == "format_fs_unused":
+                t.to_hdf5(f, case["generated_by"], compress=case["compress"], creation_date=date,
+                          format_fs={"no such category": _poison_formatter})
+            elif call == "format_fs_default_f":
+                # the library's own formatters handed in explicitly: same file as the default call
+                fs = {k: bt.general_formatter for k in ("grp", "depth", "ph", "flag", "na/me", "TAXONOMY")}
+                fs.update({k: bt.vlen_list_of_str_formatter for k in SPECIAL})
+                t.to_hdf5(f, case["generated_by"], compress=case["compress"], creation_date=date, format_fs=fs)
+            else:
+                t.to_hdf5(f, case["generated_by"], compress=case["compress"], creation_date=date)
         return case["generated_by"], date
     if w == "save_table":
-        if case["compress"]:
-            save_table(t, path)                     # default keyword arguments
+        import pathlib
+        target = pathlib.Path(path) if call == "pathlib" else path
+        if case["compress"] and call not in ("keywords", "pathlib"):
+            save_table(t, target)                   # default keyword arguments
             return generatedby(), None
-        save_table(t, path, generated_by=case["generated_by"], compress=False, creation_date=date)
+        if call == "keywords":
+            with h5py.File(path, "w") as f:         # an open handle as the target, the format spelled out
+                save_table(t, f, format_="2.1.0", generated_by=case["generated_by"], compress=case["compress"],
+                           creation_date=date)
+        else:
+            save_table(t, target, generated_by=case["generated_by"], compress=case["compress"], creation_date=date)
         return case["generated_by"], date
     if w == "convert":
         from biom.cli.table_converter import _convert
-        _convert(t, path, to_hdf5=True, table_type=case["spec"].get("type"))
+        kw = {}
+        if call == "keywords" and t.metadata(axis="observation") is not None:
+            kw["collapsed_observations"] = True     # metadata replaced by {'collapsed_ids': sorted(keys)}
+        if call == "pathlib" and t.metadata() is not None:
+            kw["collapsed_samples"] = True
+        _convert(t, path, to_hdf5=True, table_type=case["spec"].get("type"), **kw)
+        case["_src_after"] = bool(kw)
         return generatedby(), None
     raise ValueError(w)
 
@@ -631,12 +800,28 @@ def prepare(case, tmp):
         raise
     except Exception as e:                          # noqa: BLE001 — an operation of the history itself raised
         raise Unobservable("history", e)
-    if case["writer"] == "convert" and case["spec"].get("type") is None:
-        # `_convert` sets the type before writing: the table that is written is the one after that
-        t.type = "Table" if t.type in (None, "None") else t.type
+    if case["writer"] == "convert" and not case.get("group"):
+        # `_convert` sets the type before writing (its --table-type argument, else 'Table' for an untyped table):
+        # the table that is written is the one after that
+        if case["spec"].get("type") is not None:
+            t.type = case["spec"]["type"]
+        elif t.type in (None, "None"):
+            t.type = "Table"
     src = src_obs(t)
     pre = scipy_views(t)
+    case["_layout"] = leave_layout(t, case)      # last thing before the write
     return t, src, pre
+
+
+def after_write(case, t, src):
+    """writing must not change the table: its observation after the write is compared with the one before
+    (`_convert` with a collapse flag replaces the metadata on purpose: then the later observation is the table)"""
+    after = src_obs(t)
+    if case.get("_src_after"):
+        return after
+    if after != src:
+        case["_mutated"] = [k for k in src if after.get(k) != src[k]]
+    return src
 
 
 def write_and_read_raw(case, tmp=TMP, tag="c"):
@@ -645,15 +830,23 @@ def write_and_read_raw(case, tmp=TMP, tag="c"):
     t, src, pre = prepare(case, tmp)
     path = os.path.join(tmp, "%s_%d.biom" % (tag, os.getpid()))
     fresh(path)
+    plant_stale(case, path)
     try:
         try:
-            gen_by, date = write_file(case, t, path, tmp)
+            with profile_of(case, src):
+                gen_by, date = write_file(case, t, path, tmp)
         except Exception as e:                      # noqa: BLE001
-            raise Unobservable("write", e, src)
+            u = Unobservable("write", e, src, pre)
+            try:
+                u.mutated = src_obs(t) != src       # a refused write must leave the table as it was
+            except Exception:                       # noqa: BLE001
+                u.mutated = True
+            raise u
         try:
-            raw = raw_tree(path, group_name(case))
+            raw = raw_tree(path, group_name(case))     # first thing after the write
         except Exception as e:                      # noqa: BLE001
             raise Unobservable("raw-read", e, src)
+        src = after_write(case, t, src)
     finally:
         if os.path.exists(path):
             os.remove(path)
@@ -681,6 +874,13 @@ def tags_of(case, src):
     tags = ["route=" + case["route"], "writer=" + case["writer"], "compress=%s" % case["compress"]]
     if case.get("own"):
         tags.append("table-carries-own-generated_by")
+    for k in ("call", "stale", "profile"):
+        if case.get(k) and case.get(k) != "plain":
+            tags.append("%s=%s" % (k, case[k]))
+    if case.get("tz") and case.get("date"):
+        tags.append("timezone-aware date")
+    if len(src["obs"]) >= 64 or len(src["samp"]) >= 64:
+        tags.append("wide (>= 64 IDs on an axis)")
     if case.get("group"):
         tags.append("target=non-root group (two tables per file)")
     elif case.get("userblock") and case["writer"] == "to_hdf5":
@@ -694,7 +894,7 @@ def tags_of(case, src):
 
 def check_case(ctx, case, tmp=TMP):
     if hasattr(ctx, "journal"):
-        ctx.journal({"case": case})
+        ctx.journal({"case": public(case)})
     try:
         src, pre, raw, gen_by, date = write_and_read_raw(case, tmp)
     except Unobservable as u:
@@ -708,12 +908,16 @@ def check_case(ctx, case, tmp=TMP):
             # e.g. a re-loaded table whose hierarchical category holds None on every ID: outside the domain
             ctx.count("raised on a table outside the theorems' domain (not a violation):" + u.stage)
             return None
-        ctx.fail({"case": case}, "C04.%s-raised" % u.stage, ["route=" + case["route"], "writer=" + case["writer"],
-                                                            "exc=" + u.exc_name], detail={"what": str(u), "src": u.src})
+        ctx.fail({"case": public(case)}, "C04.%s-raised" % u.stage, ["route=" + case["route"], "writer=" + case["writer"],
+                                                                    "exc=" + u.exc_name], detail={"what": str(u), "src": u.src})
         return None
     req = request(case, src, pre, raw, gen_by, date)
     r = ctx.driver.ask(req)
     tags = tags_of(case, src)
+    if case.get("_mutated"):
+        ctx.fail({"case": public(case)}, "C04.writer-changed-the-table", tags, detail={"fields": case["_mutated"]})
+    for what in case.get("_layout") or []:
+        ctx.count("before write: " + str(what))
     if case.get("_planted"):
         ctx.count("stored zero planted next to a negative value before the write")
     ctx.count("table inside the theorems' metadata domain" if r.get("in_domain") else
@@ -730,7 +934,7 @@ def check_case(ctx, case, tmp=TMP):
             for k, v in src[ax][0]:
                 ctx.count("md=" + v["t"] + ("/special" if k in SPECIAL else "/lookalike" if k in LOOKALIKES else "") +
                           ("/slash" if "/" in k else ""))
-    rec = {"case": case}
+    rec = {"case": public(case)}
     if not r["model_holds"] and r["model"].get("error") is None:
         ctx.diverge(rec, "holds is false of toH5 on the layouts found in the file (layout contract broken, or toH5_specWF contradicted)", tags)
     if not r["holds"]:
@@ -770,6 +974,29 @@ CORPUS = [
      "route": "csr_zeros", "perm_seed": 0, "generated_by": "x", "compress": True, "date": None, "ogmd": None,
      "sgmd": None, "writer": "to_hdf5"},
 ]
+
+
+def wide_cases(rng):
+    """size thresholds: >= 64 IDs on an axis (both axes), texts >= 64 KiB, long multi-byte IDs"""
+    out = []
+    for axis in ("sample", "observation"):
+        spec = core.wide_spec(rng, axis=axis, classes=rng.choice([("count",), ("neg", "dyadic")]), md=True)
+        spec["table_id"] = None
+        if axis == "sample":
+            spec["samp"] = [s_ + ("\u00e9" if k % 7 == 0 else "") for k, s_ in enumerate(spec["samp"])]
+            spec["smd"] = [dict(e, taxonomy=["k__%d" % (k % 5)] * (1 + k % 3), depth=k) for k, e in enumerate(spec["smd"])]
+        case = gen_case(rng, True, empty_axes=False, allow_group=False)
+        case.update(spec=spec, route=rng.choice(["csc", "csr_unsorted", "sort_order", "rewrite:transform_samp", "coo"]))
+        out.append(case)
+    big = gen_case(rng, True, empty_axes=False, allow_group=False)
+    txt = "".join(chr(0x3b1 + (k % 20)) for k in range(40000))             # 80 KB of utf-8
+    big.update(spec={"obs": ["O" + "\u65e5" * 300, "o2"], "samp": ["s1", "s2" + "x" * 70000, "s3"],
+                     "rows": [[1.0, 0.0, 2.0], [0.0, 3.5, 0.0]],
+                     "omd": [{"note": txt, "taxonomy": ["k__" + "Z" * 70000]}, {"note": "short", "taxonomy": ["k__a", "p__b"]}],
+                     "smd": None, "type": "OTU table", "table_id": "big texts"},
+               route="dense", ogmd={"tree": ("newick", "(" + ",".join("t%d" % k for k in range(12000)) + ");")}, sgmd=None)
+    out.append(big)
+    return out
 
 
 def _fixed(omd=None, smd=None, **kw):
@@ -818,6 +1045,11 @@ EDGE = {
     "empty-table-id": _edge(table_id=""),
     "none-next-to-text": _edge(smd=[{"grp": None}, {"grp": "b"}]),
     "empty-lists": _edge(omd=[{"taxonomy": []}, {"taxonomy": []}, {"taxonomy": []}]),
+    # refused writes (error paths): same error class in the model, table left as it was
+    "inconsistent-categories": _edge(omd=[{"a": "x"}, {"b": "y"}, {"a": "z"}]),
+    "number-under-hierarchical-name": _edge(omd=[{"taxonomy": 5}, {"taxonomy": 6}, {"taxonomy": 7}]),
+    "text-under-collapsed_ids": _edge(smd=[{"collapsed_ids": "a"}, {"collapsed_ids": "b"}]),
+    "all-none-hierarchical": _edge(omd=[{"taxonomy": None, "k": "a"}, {"taxonomy": None, "k": "b"}, {"taxonomy": None, "k": "c"}]),
 }
 
 
@@ -826,7 +1058,17 @@ def edge_stream(ctx, tmp=TMP):
         try:
             src, pre, raw, gen_by, date = write_and_read_raw(case, tmp, tag="e")
         except Unobservable as u:
-            ctx.count("out-of-domain(agreement only):%s:real code raised at %s" % (name, u.stage))
+            # a refused write: the model must refuse with the same error class, and the table must be unchanged
+            ctx.case({"edge": name, "raised": u.stage}, nontrivial=False)
+            me = None
+            if u.stage == "write" and u.src is not None and u.pre is not None:
+                me = ctx.driver.ask({"op": "domain", "src": u.src, "csr": u.pre["csr"], "csc": u.pre["csc"]})["model_error"]
+            ctx.count("out-of-domain(agreement only):%s:real code raised %s, model %s" % (name, u.exc_class, me))
+            if u.stage != "write" or me != u.exc_class:
+                ctx.diverge({"case": public(case), "edge": name}, "refusal differs: code %s at %s, model %s" % (
+                    u.exc_class, u.stage, me), ["edge=" + name])
+            if getattr(u, "mutated", False):
+                ctx.fail({"case": public(case), "edge": name}, "C04.refused-write-changed-the-table", ["edge=" + name])
             continue
         r = ctx.driver.ask(request(case, src, pre, raw, gen_by, date))
         ctx.case({"edge": name, "raw": raw}, nontrivial=False)
@@ -916,6 +1158,8 @@ def run(ctx):
             if k == n // 2:
                 poison_process(ctx, tmp)
             check_case(ctx, gen_case(ctx.rng, ctx.quick(), flat_tax=True), tmp)
+        for case in wide_cases(ctx.rng):
+            check_case(ctx, case, tmp)
         for _ in range(12 if ctx.quick() else 400 // wcount):
             case = gen_case(ctx.rng, ctx.quick(), empty_axes=False)
             cli_case(ctx, case, tmp)
